@@ -54,6 +54,14 @@ CLAIMED["C16"] = ("property-based testing (Hypothesis): span-manager scripts aga
          "Exploration: registrations with context lengths up to 2^40 and span lengths around 2^25 must round-trip; every span of every error and stack-trace entry must lie inside the file it names; the rendered report (plain/coloured, every --max-trace) must exit 1 without panic text and name the primary span's file, line and column.",
          "Trusts the in-process error dump of the engine (public error enums) and compares the binary's first `-->` line with the primary span computed in-process on the same bytes; columns are only judged when the line prefix is printable ASCII (tabs are expanded by the renderer).",
          "DESIGN.md section 5 / C16")
+CLAIMED["C03"] = ("property-based testing (Hypothesis) + exhaustive enumeration: generated programs under many collection schedules (metamorphic), steady-state object counts over request histories, the real collector driven through a scripted heap against a reachability model",
+         "Exploration, with an exhaustive sub-check: every heap with <= 3 nodes (4 in thorough) x every handle configuration x every single further operation is checked against reachability; random op sequences up to 40 ops; 9+ schedules per generated program must agree on outcome and stack trace; object counts must be stable after warm-up.",
+         "Uses hooks H1 (schedule override, counters) and H2 (scripted heap over the real GcContext); the reachability model is 20 lines of Python/Rust; memoised standard-library thunks are allowed as warm-up growth.",
+         "DESIGN.md section 5 / C03")
+CLAIMED["C11"] = ("property-based testing (Hypothesis): generated request histories on one long-lived Program vs replay of each request's own dependency chain on a fresh Program (differential against the implementation itself on a fresh state)",
+         "Exploration: histories of load/eval/re-eval/call/manifest/gc/set_max_stack over sources sharing a lazily evaluated ext-var and a cached import, with explicit errors, assertion failures, type errors and stack overflows interleaved; outcomes (text; error variant, message, spans, stack) must match the fresh state.",
+         "The oracle is the same implementation on a fresh state (the property is stated that way); a fresh-state StackOverflow is not compared when the long-lived state succeeds because memoisation legitimately needs fewer frames.",
+         "DESIGN.md section 5 / C11")
 NOT_YET = {}
 
 def main():
